@@ -14,7 +14,7 @@ Harness configuration (none of it is the subject of C11/C13/C14):
     every entry into that peer's code (`as_peer`), so that serial numbers of different clients collide
     exactly as they do between real processes (all clients start at 1).
   * likewise `DBusInterface.knownInterfaces` (a process-wide cache keyed by interface name): one dict per
-    peer, swapped in by `as_peer`, so that one client's proxy is never built from what another client
+    peer, each starting from the IMPORT-TIME content (Properties, org.freedesktop.DBus), swapped in by `as_peer`, so that one client's proxy is never built from what another client
     introspected;
   * `txdbus.client.reactor` is a `task.Clock` that never advances (calls with `timeout=` get their delayed
     call; it never fires);
@@ -35,6 +35,7 @@ import contextlib
 import struct
 
 BUS = 'bus'
+_IMPORT_TIME_KNOWN = None
 
 
 def no_peer_credentials():
@@ -187,7 +188,13 @@ class Net:
         from txdbus import interface as _interface, client as _client
         from twisted.internet import task
         self._iface_cls = _interface.DBusInterface
-        self._known_base = dict(self._iface_cls.knownInterfaces)     # what a fresh process starts with
+        # what a fresh process starts with: the interfaces txdbus registers AT IMPORT (objects.DBusObject's
+        # org.freedesktop.DBus.Properties, bus.Bus's org.freedesktop.DBus) - captured once, before any scenario ran
+        global _IMPORT_TIME_KNOWN
+        if _IMPORT_TIME_KNOWN is None:
+            _IMPORT_TIME_KNOWN = {k: v for k, v in self._iface_cls.knownInterfaces.items()
+                                  if k.startswith('org.freedesktop.DBus')}
+        self._known_base = dict(_IMPORT_TIME_KNOWN)
         self._known_outside = self._iface_cls.knownInterfaces
         self.known = {}
         self.clock = task.Clock()
